@@ -150,7 +150,7 @@ func (h *SparseFileHandle) Close() error {
 
 type sparseIndexChunk struct {
 	IndexChunk
-	once sync.Once
+	mu sync.Mutex // serialises loading of this chunk
 }
 
 // Loader for sparse files
@@ -230,38 +230,44 @@ func (l *sparseFileLoader) loadRange(start, length int64) error {
 }
 
 func (l *sparseFileLoader) loadChunk(i int) error {
-	var loadErr error
-	l.chunks[i].once.Do(func() {
-		c, err := l.s.GetChunk(l.chunks[i].ID)
-		if err != nil {
-			loadErr = err
-			return
-		}
-		b, err := c.Data()
-		if err != nil {
-			loadErr = err
-			return
-		}
+	// Only one goroutine loads a chunk at a time. Unlike a sync.Once, a failed
+	// load isn't remembered: the next caller tries again instead of reading the
+	// unpopulated range from the file.
+	l.chunks[i].mu.Lock()
+	defer l.chunks[i].mu.Unlock()
 
-		f, err := os.OpenFile(l.name, os.O_RDWR, 0666)
-		if err != nil {
-			loadErr = err
-			return
-		}
-		defer f.Close()
+	l.mu.RLock()
+	done := l.done.Get(i)
+	l.mu.RUnlock()
+	if done {
+		return nil
+	}
 
-		verifYield("sp.write", "i", i)
-		if _, err := f.WriteAt(b, int64(l.chunks[i].Start)); err != nil {
-			loadErr = err
-			return
-		}
+	c, err := l.s.GetChunk(l.chunks[i].ID)
+	if err != nil {
+		return err
+	}
+	b, err := c.Data()
+	if err != nil {
+		return err
+	}
 
-		verifYield("sp.done", "i", i)
-		l.mu.Lock()
-		l.done.Set(i, true)
-		l.mu.Unlock()
-	})
-	return loadErr
+	f, err := os.OpenFile(l.name, os.O_RDWR, 0666)
+	if err != nil {
+		return err
+	}
+	defer f.Close()
+
+	verifYield("sp.write", "i", i)
+	if _, err := f.WriteAt(b, int64(l.chunks[i].Start)); err != nil {
+		return err
+	}
+
+	verifYield("sp.done", "i", i)
+	l.mu.Lock()
+	l.done.Set(i, true)
+	l.mu.Unlock()
+	return nil
 }
 
 // writeState saves the current internal state about which chunks have
